@@ -415,3 +415,36 @@ Proof.
     + intros Hc. destruct (Hn Hc) as (Hc1 & e1 & He1). destruct (Hm Hc1) as (e2 & He2).
       exists (e1 ++ e2). rewrite He2, He1, app_assoc. reflexivity.
 Qed.
+
+(** [named_segment_text] for any state a run can reach *)
+Lemma named_segment_text_run : forall fmap os s chunk p nm s',
+  sw_run fmap os = Some s -> p_builtin p = false -> sw_write_for s chunk p (Some nm) = Some s' ->
+  exists e1 e2 pre post k,
+    add_entries (sw_map s) [e1; e2] = Some (sw_map s') /\
+    c_buf (sw_cur s') = pre ++ post /\ end_pos pre = epos e1 /\ is_prefix (hd [] (split_on LF chunk)) post = true /\
+    e_ol e1 = p_line p /\ e_oc e1 = p_col p /\ e_ni e1 = Some k /\
+    nth_error (nm_all (sw_names s')) (N.to_nat k) = Some nm /\
+    end_pos (c_buf (sw_cur s')) = epos e2 /\
+    e_ol e2 = p_line p /\ e_oc e2 = p_col p + utf16_len nm /\ e_ni e2 = None /\ e_fi e2 = e_fi e1.
+Proof.
+  intros fmap os s chunk p nm s' H Hb Hw.
+  destruct (winv_run os _ _ [] (winv_init fmap) H) as (res & W & _).
+  exact (named_segment_text_lemma s _ chunk p nm s' W Hb Hw).
+Qed.
+
+(** a run is a prefix-closed notion: running [os ++ os'] is running [os] and then [os'] *)
+Lemma sw_run_from_app : forall os os' s, sw_run_from s (os ++ os') = bind (sw_run_from s os) (fun s1 => sw_run_from s1 os').
+Proof.
+  induction os as [|o os IH]; intros os' s; [reflexivity|]. cbn [app sw_run_from]. unfold bind at 1 3.
+  destruct (sw_step s o); [apply IH | reflexivity].
+Qed.
+
+(** the final text and names extend those right after any prefix of the run *)
+Lemma writer_buffers_grow_lemma : forall fmap os os' s1 s2,
+  sw_run fmap os = Some s1 -> sw_run fmap (os ++ os') = Some s2 ->
+  (exists x, c_buf (sw_cur s2) = c_buf (sw_cur s1) ++ x) /\ (exists ext, nm_all (sw_names s2) = nm_all (sw_names s1) ++ ext).
+Proof.
+  intros fmap os os' s1 s2 H1 H2. unfold sw_run in *. rewrite sw_run_from_app, H1 in H2. cbn [bind] in H2.
+  destruct (run_grows _ _ _ H2) as (A & B). split; [exact A|]. apply B.
+  destruct (winv_run os _ _ [] (winv_init fmap) H1) as (res & W & _). exact (wi_names _ _ W).
+Qed.
